@@ -727,6 +727,12 @@ pub fn pct_patterns(iri: bool) -> Vec<String> {
         if b % 7 == 0 {
             v.push(format!("a%{:02x}b", b));
         }
+        // the escape at the very end / start of a longer component, in either hex case
+        v.push(format!("ab%{:02X}", b));
+        v.push(format!("%{:02x}ab", b));
+        if b >= 0x80 {
+            v.push(format!("\u{e9}%{:02X}", b));
+        }
     }
     let fixed = [
         "", "a", "%c3%a9", "%C3%A9", "%e2%82%ac", "%F0%9F%98%80", "a%C3%A9b", "%41%42", "%61", "a",
